@@ -86,6 +86,8 @@ theorem C10_requote_sep {prot : Bytes} {q : Quoter} (hq : Quoter.mk? prot = some
   exact decodeAll_eq_spec hq a
 
 example : Quoter.mk? [37, 47, 43] = some defaultQuoter := rfl
+-- `/` satisfies the hypotheses on the separator
+example : (47 : UInt8) ∈ [37, 47, 43] ∧ (47 : UInt8) ≠ 37 ∧ isHexDigit 47 = false := by decide
 
 /-- **C10_requote_slash**: the default quoter of `Url::new` (protected `%/+`) preserves the
 segment structure of every path: `split('/')` commutes with decoding. -/
@@ -316,6 +318,15 @@ theorem C10_sound (rd : ResourceDef) (hwf : DefWF rd) (path : List Char) (hlen :
       rw [(isMatchRe_iff d' path).mpr hex] at this
       cases this
 
+-- the hypotheses of `C10_sound` are satisfiable: a parsed definition, a short path, a real match
+example : DefWF ⟨false, .dynamic ⟨[.const ['/'], .var ['a'] defaultRe], .eos⟩, []⟩ ∧
+    blen ['/', 'é', '1'] < 65536 ∧
+    (ResourceDef.mk false (.dynamic ⟨[.const ['/'], .var ['a'] defaultRe], .eos⟩) []).captureMatchInfo
+      (fresh ['/', 'é', '1']) = .matched { path := ['/', 'é', '1'], skip := 4, segments := [(['a'], 1, 4)] } := by
+  refine ⟨?_, by decide, by decide⟩
+  show allDistinct _ = true
+  decide
+
 /-- **C10_complete**: every path in the pattern's language is matched (by all three ways, by
 `C10_three_agree`). -/
 theorem C10_complete (rd : ResourceDef) (path : List Char) (n : Nat) (vals : List (Name × List Char))
@@ -522,6 +533,11 @@ theorem C10_chain (rd : ResourceDef) (st : PathState) (hlen : blen st.path < 655
       cases hget : ds[i]? with
       | none => simp
       | some d => exact captureDyn_shift d st hlen hskip
+
+-- a chained state satisfying the hypotheses of `C10_chain` / `C10_offsets_u16`: `/app` consumed
+example : blen (PathState.mk ['/', 'a', 'p', 'p', '/', 'u'] 4 []).path < 65536 ∧
+    (PathState.mk ['/', 'a', 'p', 'p', '/', 'u'] 4 []).skip ≤ blen ['/', 'a', 'p', 'p', '/', 'u'] ∧
+    (PathState.mk ['/', 'a', 'p', 'p', '/', 'u'] 4 []).unprocessed = ['/', 'u'] := by decide
 
 /-- **C10_offsets_u16**: below 64 KiB (which `http::Uri` guarantees) no `u16` offset is
 truncated and no `u16` addition overflows, at any depth of chained matching: the step never
